@@ -5,7 +5,7 @@ import json, os, re, glob
 root='/verif/seeded'
 demo_pkg={'C01-1':'base58','C05-3':'base58','C06-3':'base58','C07-3':'base58'}
 pkg_by_prop={'C03':'.','C04':'hdkeychain','C05':'hdkeychain','C06':'.','C07':'bech32','C08':None,'C09':'bloom','C10':'bloom','C11':None,'C12':'merkleblock','C15':'hdkeychain','C16':'.','C18':'txsort','C20':None,'C01':'.','C02':'.','C13':'gcs','C14':'gcs','C17':'.','C19':'coinset'}
-special={'C02-10':'base58','C07-12':'base58','C11-9':'merkleblock','C11-10':'merkleblock','C11-11':'bloom','C03-6':'.','C03-7':'bech32','C03-8':'bech32','C20-6':'bloom','C20-7':'bloom','C20-8':'gcs','C08-7':'gcs','C08-8':'base58','C08-9':'bloom','C02-9':'base58','C06-9':'base58','C07-8':'base58','C11-6':'merkleblock','C11-7':'.','C11-8':'merkleblock','C07-4':'base58','C07-5':'bech32','C07-6':'bech32','C08-4':'.','C08-5':'merkleblock','C08-6':'bloom','C11-3':'merkleblock','C11-4':'bloom','C11-5':'merkleblock','C14-3':'gcs/builder','C03-3':'.','C03-4':'bech32','C03-5':'.','C20-3':'bloom','C20-4':'bloom','C20-5':'gcs','C08-1':'bloom','C08-2':'merkleblock','C08-3':'gcs','C11-1':'bloom','C11-2':'merkleblock','C20-1':'bloom','C20-2':'gcs','C03-1':'.','C03-2':'bech32','C07-1':'bech32','C07-2':'bech32'}
+special={'C07-14':'base58','C03-9':'.','C03-10':'bech32','C02-10':'base58','C07-12':'base58','C11-9':'merkleblock','C11-10':'merkleblock','C11-11':'bloom','C03-6':'.','C03-7':'bech32','C03-8':'bech32','C20-6':'bloom','C20-7':'bloom','C20-8':'gcs','C08-7':'gcs','C08-8':'base58','C08-9':'bloom','C02-9':'base58','C06-9':'base58','C07-8':'base58','C11-6':'merkleblock','C11-7':'.','C11-8':'merkleblock','C07-4':'base58','C07-5':'bech32','C07-6':'bech32','C08-4':'.','C08-5':'merkleblock','C08-6':'bloom','C11-3':'merkleblock','C11-4':'bloom','C11-5':'merkleblock','C14-3':'gcs/builder','C03-3':'.','C03-4':'bech32','C03-5':'.','C20-3':'bloom','C20-4':'bloom','C20-5':'gcs','C08-1':'bloom','C08-2':'merkleblock','C08-3':'gcs','C11-1':'bloom','C11-2':'merkleblock','C20-1':'bloom','C20-2':'gcs','C03-1':'.','C03-2':'bech32','C07-1':'bech32','C07-2':'bech32'}
 for d in sorted(glob.glob(root+'/C??-[0-9]*')):
     sid=os.path.basename(d); prop,idx=sid.split('-')
     notes=open(f'{root}/{prop}-notes.md').read() if os.path.exists(f'{root}/{prop}-notes.md') else ''
